@@ -202,6 +202,25 @@ func (c *Ctx) arith(op token.Token, a, b Value, rt types.Type, spec bool) (res s
 		c.bitFns()
 		return sx("bitor", a.S, b.S), precond
 	case token.XOR:
+		// x ^ 2^k flips bit k
+		flip := func(x string, n *big.Int) (string, bool) {
+			k, ok := pow2Of(n)
+			if !ok {
+				return "", false
+			}
+			p := new(big.Int).Lsh(big.NewInt(1), uint(k)).String()
+			return fmt.Sprintf("(ite (= (mod (div %s %s) 2) 1) (- %s %s) (+ %s %s))", x, p, x, p, x, p), true
+		}
+		if n, ok := litInt(b.S); ok {
+			if r, ok := flip(a.S, n); ok {
+				return wrap(r, true), precond
+			}
+		}
+		if n, ok := litInt(a.S); ok {
+			if r, ok := flip(b.S, n); ok {
+				return wrap(r, true), precond
+			}
+		}
 		c.bitFns()
 		return sx("bitxor", a.S, b.S), precond
 	case token.AND_NOT:
